@@ -114,7 +114,9 @@ func TestC15Race(t *testing.T) {
 			sc := rr.sc
 			sc.Report = rep.text
 			if f, listed := open[rep.class]; listed {
-				rec.KnownFinding(fmt.Sprintf("KNOWN-FINDING: property=C15 %s [%s, class %s; reproduced in round %d: %s / %s]", f.What, f.ID, rep.class, rr.sc.Round, rep.where[0], rep.where[1]))
+				// the line is kept free of round numbers so that shards agree on it
+				rec.KnownFinding(fmt.Sprintf("KNOWN-FINDING: property=C15 %s [%s, class %s]", f.What, f.ID, rep.class))
+				rec.Note("open finding %s (class %s) reproduced after round %d (seed %d): %s / %s", f.ID, rep.class, rr.sc.Round, rr.sc.Seed, rep.where[0], rep.where[1])
 				continue
 			}
 			if known := unrestoredMatch(rep, open); known != "" {
